@@ -388,6 +388,11 @@ def grid(prop, quick, seed=0):
             jobs.append('P=%d seed=%d min=150 max=400 mut=character rate=1.0' % (P, sd))
         for sd in range(30 if quick else 300):
             jobs.append('P=%d seed=%d min=150 max=400 mut=stringlen,character,boundary rate=1.0' % (P, sd))
+    if prop in ('C01', 'C03'):
+        # rare four-step histories of the protocol 4/5 vocabulary (STACK_GLOBAL, NEWOBJ_EX, ADDITEMS, FROZENSET ..)
+        for P in (4, 5):
+            for sd in range(300 if quick else 3000):
+                jobs.append('P=%d seed=%d min=300 max=600' % (P, sd))
     if prop == 'C01':
         # very long pickles: more than 256 memo entries (text PUT/GET indices above one byte, LONG_BINPUT)
         for P in range(6):
